@@ -135,6 +135,33 @@ def frame_integrity(chk, prog, rid_fields="R6.frame_fields", rid_ahead="R6.no_re
             chk.ob(rid_ahead, p, "no buffering reader around the connection that is dropped when the call returns", escapes,
                    "a BufReader is wrapped around the stream for one call and dropped at return: bytes of the following frame that it read ahead are lost "
                    "(two frames delivered in one segment: the second never arrives)", where=pb.where(blk))
+    # a bare read() on the frame path (the non-blocking probe) asks for no more than the two fixed header bytes: whatever else it got would
+    # have to be handed on, and the part of it that lies beyond the end of a short frame belongs to the next frame
+    for p in sorted(reach):
+        pb = prog.bodies[p]
+        if not (p.startswith("humphrey_ws::frame::") or p.startswith("<humphrey_ws::frame::")):
+            continue
+        for blk, t in pb.calls_to(r"(^|::)std::io::Read::read$|<[^>]* as std::io::Read>::read$"):
+            if len(t["args"]) < 2:
+                continue
+            d = describe(prog, pb, t["args"][1])
+            if not [x for x in core.desc_subterms(d) if isinstance(x, tuple) and x and x[0] == "repeat"] and "{closure" in p:
+                try:
+                    d = core.resolve_upvars(prog, pb, d)      # the buffer is captured by a closure (`with_nonblocking(stream, |s| s.read(&mut buf))`)
+                except Exception:
+                    pass
+            lens = [x[2] for x in core.desc_subterms(d) if isinstance(x, tuple) and x and x[0] == "repeat"]
+            whole = d[0] == "repeat"
+            ok = whole and str(d[2]) == "2"
+            if not whole and len(lens) == 1 and not [c for c in core.desc_calls(d) if core.re.search(r"index(_mut)?$", c[1])]:
+                whole = True        # the whole array behind reference wrappers (a captured `&mut buf`)
+                ok = str(lens[0]) == "2"
+            if not whole:
+                # a sub-slice of the header buffer (`&mut buf[got..]`) of the 2-byte array is within the header as well
+                ok = bool(lens) and all(str(l_) == "2" for l_ in lens)
+            chk.ob(rid_ahead, p, "a bare read() asks for at most the 2 fixed header bytes", ok,
+                   f"read() into a buffer of {lens or '?'} bytes: bytes beyond the current frame are taken off the socket with it and do not reach the next receive "
+                   "(a burst of short frames loses messages / desynchronises the stream)", where=pb.where(blk))
     chk.ob(rid_ahead, "humphrey_ws", "reader bodies scanned for a dropped read-ahead buffer", n_sites >= 5, f"{n_sites} bodies")
 
 
